@@ -11,11 +11,15 @@ from .common import Check
 from .c17_impl import HarnessBroken, Impl, Unsupported, QNAME, T_END, T_START, show_outcome
 
 RULE = ("every token kind in every argument position (all 216 kind triples of a 3-argument call, each kind "
-        "nested in call / list / dict-value position), the defect-13 witnesses, then seeded random programs "
-        "(depth <= 5, 0-3 arguments, 1-4 statements with rebinding and aliasing, strings containing brackets, "
-        "commas, both quotes, backslashes, '=', ':' and non-ASCII text, dict literals with distinct keys, the "
-        "built-ins that are pure on literals plus echo), each under two random layouts; non-trivial = distinct "
-        "program text containing a call, a list or a dict")
+        "nested in call / list / dict-value position), the defect-13 witnesses, what the model's wf admits beyond "
+        "that (a 4300-digit literal, names that look like built-ins / predefined names / underscores only, dict "
+        "in dict to depth 12, call/list/dict chains to depth 14, rebinding chains), two programs under every "
+        "single ASCII white-space character at every slot, then seeded random programs (depth <= 5 wide or "
+        "<= 14 narrow, 0-3 arguments, 1-8 statements with rebinding and aliasing, random names, strings "
+        "containing brackets, commas, both quotes, backslashes, '=', ':' and non-ASCII text, dict literals with "
+        "distinct keys, the built-ins that are pure on literals plus echo), each under two random layouts "
+        "(blanks from all ten ASCII white-space characters); non-trivial = distinct program text containing a "
+        "call, a list or a dict")
 
 # every ASCII character str.strip() removes (Model/PyStr.v is_space): \t \n \x0b \x0c \r \x1c-\x1f and the space
 BLANKS = ["", "", " ", " ", "  ", "\n", "\t", " \n ", "\r\n", "\x0c", "\n\n  ", "\r", "\x0b", "\x1c", "\x1d", "\x1e",
@@ -391,7 +395,8 @@ def main(argv=None):
     ck.prove(extra_targets=["Bridge/BridgeQuery.v"],
              gen_kernels=["query_header", "QString.check", "QInteger.check", "QFunction.check", "QDict.check",
                           "QList.check", "QVariable.check", "qtypes", "_parse_token", "parse_methods", "parse",
-                          "create_namespace", "get_return", "query_footer"])  # tie B: translate/k_query.py
+                          "create_namespace", "get_return", "_verify_variable_is_type", "q2_typecheck",
+                          "q2_function", "interpreter_text", "query_footer"])  # tie B: translate/k_query.py
     have_driver = ck.driver("ExC17")
 
     quick = ck.tier == "quick"
@@ -471,7 +476,8 @@ def main(argv=None):
         "written from their documented behaviour on literal arguments, independently of aw_query.functions",
         "built-in bodies are an oracle for the model (replayed from the implementation's recorded calls)",
         "string literals: no ';' and no trailing backslash in the content; non-ASCII only inside string literals",
-        "integer literals below 2^61 (driver text glue); CPython's recursion limit not modelled (depth <= 5)",
+        "integer values beyond 2^61 are compared with the reference evaluator only (driver text glue); CPython's "
+        "recursion limit not modelled (depth <= 14)",
     ]
     return ck.finish(RULE)
 
